@@ -1,5 +1,7 @@
 import IblVerif.Model.Proto
 import IblVerif.Model.Destripe
+import IblVerif.Model.DestripeStages
+import IblVerif.Model.DestripeSos
 open IblVerif IblVerif.Proto IblVerif.Destripe
 
 /-! Line protocol for C05.  Every operation instantiates the definitions of `Model/Destripe.lean` at `Float`;
@@ -73,6 +75,15 @@ def fkOf (tbl : List (Nat × Array Float × Array Float)) (ns : Nat) : Nat → M
     | some e => .ok (matOf e.2.2 n ns)
     | none => .error .notModelled
 
+/-- second-order sections: 5 numbers `b0 b1 b2 a1 a2` per section -/
+def secs? (s : String) : Option (List (Sec Float)) := do
+  let l ← f64List? s
+  let a := l.toArray
+  if a.size % 5 != 0 then none else
+  pure ((List.range (a.size / 5)).map fun k =>
+    { b0 := a.getD (5 * k) 0.0, b1 := a.getD (5 * k + 1) 0.0, b2 := a.getD (5 * k + 2) 0.0,
+      a1 := a.getD (5 * k + 3) 0.0, a2 := a.getD (5 * k + 4) 0.0 })
+
 def spatial? (t : List String) (ns : Nat) : Option ((Nat → Mat Float → Except Err (Mat Float)) × List String) :=
   match t with
   | "car" :: op :: coll :: rest => do
@@ -87,6 +98,16 @@ def spatial? (t : List String) (ns : Nat) : Option ((Nat → Mat Float → Excep
     let coll ← coll? coll
     let ltab ← matTable? ltab
     let s : KSet Float := { ntrPad := pad, ntrTap := tap, lagc := lagc, L := lOf ltab, padlen := padlen }
+    pure (fun n y => kfilt envF s n ns coll y, rest)
+  | "kfiltsos" :: pad :: tap :: lagc :: coll :: secs :: rest => do
+    -- the spatial filter is the MODELLED sosfiltfilt of the given sections (no measured matrix)
+    let pad ← nat? pad
+    let tap ← optNat? tap
+    let lagc ← optNat? lagc
+    let coll ← coll? coll
+    let secs ← secs? secs
+    let edge := sosEdge envF secs
+    let s : KSet Float := { ntrPad := pad, ntrTap := tap, lagc := lagc, L := sosL envF secs edge, padlen := edge }
     pure (fun n y => kfilt envF s n ns coll y, rest)
   | _ => none
 
@@ -113,6 +134,33 @@ def step (t : List String) : String :=
     match nat? l with
     | some l => s!"ok {agcWin l}"
     | none => "bad-op"
+  | ["agcwinq", wn, wd, sn, sd] =>
+    match nat? wn, nat? wd, nat? sn, nat? sd with
+    | some wn, some wd, some sn, some sd => s!"ok {agcWinQ wn wd sn sd}"
+    | _, _, _, _ => "bad-op"
+  | ["padidx", nx, pad] =>
+    -- rows of the padded array, what stripping returns, and the index map of the functional model
+    match nat? nx, nat? pad with
+    | some nx, some pad =>
+      s!"ok idx={showList (padIdx nx pad)} strip={showList (stripRowsIf pad (padIdx nx pad))} map={showList ((List.range (nxpOf nx pad)).map (mirrorIdx nx pad))}"
+    | _, _ => "bad-op"
+  | ["taper", nxp, tap] =>
+    match nat? nxp, nat? tap with
+    | some nxp, some tap => "ok " ++ showF64s ((List.range nxp).map (taper envF nxp tap))
+    | _, _ => "bad-op"
+  | ["stages", "kfilt", lagc, nx, pad, tap] =>
+    match optNat? lagc, nat? nx, nat? pad, optNat? tap with
+    | some lagc, some nx, some pad, some tap =>
+      let s : KSet Float := { ntrPad := pad, ntrTap := tap, lagc := lagc, L := fun _ v => v, padlen := 0 }
+      "ok " ++ toString (kfilt1T envF s nx 1 (Mat.ofFn fun _ _ => 0.0)).2
+    | _, _, _, _ => "bad-op"
+  | ["sosff", secs, data] =>
+    match secs? secs, f64List? data with
+    | some secs, some data =>
+      let edge := sosEdge envF secs
+      if data.length ≤ edge then s!"err ValueError edge={edge}"
+      else s!"ok edge={edge} y={showF64s (sosfiltfilt envF secs edge data)}"
+    | _, _ => "bad-op"
   | ["fshift", n, s, row] =>
     match nat? n, f64? s, f64List? row with
     | some n, some s, some row =>
